@@ -1069,10 +1069,28 @@ class _ModEnv:
                 v = th[m][a]
                 return ModuleNS(f"{m}.{a}", v, interp) if isinstance(v, dict) else v
             raise Undecided(f"import {full} has no theory entry")
+        if name == "globals":
+            return lambda: GlobalsProxy(self, interp)
         b = interp.theories["builtins"]
         if name in b:
             return b[name]
         raise SymRaise(ExcVal("NameError", (name,)))
+
+
+class GlobalsProxy:
+    """globals() of an elexmodel module: only item lookup of module-level names is modelled"""
+
+    def __init__(self, modenv, interp):
+        self.modenv = modenv
+        self.interp = interp
+
+    def pyvc_getitem(self, interp, key):
+        if not isinstance(key, str):
+            raise Undecided("globals()[symbolic]")
+        mod = self.modenv.mod_obj
+        if key in mod.functions or key in mod.classes or key in mod.assigns or key in mod.imports:
+            return self.modenv.get(key, interp)
+        raise SymRaise(ExcVal("KeyError", (key,), ("LookupError",)))
 
 
 class ElexModuleRef:
